@@ -10,6 +10,7 @@ and dumps every compiled program with the prefix / suffix / length facts the imp
 model evaluates the same case on the dumped programs. Compared: selected stream ids, three ways.
 """
 import os
+import shutil
 import random
 import time
 
@@ -152,7 +153,7 @@ def model_text(case, cid, progs):
 
 
 def execute(cases, exe, tag, with_model=True):
-    d = os.path.join(BUILD, "run", "c04")
+    d = os.path.join(BUILD, "run", "c04", str(os.getpid()))
     os.makedirs(d, exist_ok=True)
     cf, iout = os.path.join(d, "cases_%s.txt" % tag), os.path.join(d, "impl_%s.out" % tag)
     mcf, mout = os.path.join(d, "mcases_%s.txt" % tag), os.path.join(d, "model_%s.out" % tag)
@@ -162,7 +163,7 @@ def execute(cases, exe, tag, with_model=True):
     for p in (iout, mout):
         if os.path.exists(p):
             os.remove(p)
-    ov = go_overlay({"internal/index/zz_verif_c04_test.go": os.path.join(ROOT, "harness/c04/zz_verif_c04_test.go")}, "c04")
+    ov = go_overlay({"internal/index/zz_verif_c04_test.go": os.path.join(ROOT, "harness/c04/zz_verif_c04_test.go")}, "c04_%d" % os.getpid())
     rc, out, gosec = go_test("./internal/index/", ov, "^TestVerifC04$", {"VERIF_CASES": cf, "VERIF_OUT": iout}, timeout=900)
     note = "" if rc == 0 else "go harness rc=%d: %s" % (rc, out[-1500:])
     impl, begun = {}, None
@@ -393,4 +394,9 @@ def main(tier, seed, replay=None):
     write_evidence(PROP, tier, seed, cov,
                    ["payload bytes are what the index stores (C05 is about that)", "conditions are given as query.DataCondition values (parser and normaliser are C03/C14)"],
                    time.time() - t0, nviol)
+    shutil.rmtree(os.path.join(BUILD, "run", "c04", str(os.getpid())), ignore_errors=True)
+    try:
+        os.remove(os.path.join(BUILD, "overlay", "c04_%d.json" % os.getpid()))
+    except OSError:
+        pass
     return 1 if nviol else 0
